@@ -24,3 +24,11 @@ Fixpoint pos_popcount (p : positive) : N :=
   | xI q => N.succ (pos_popcount q)
   end.
 Definition popcount (a : N) : N := match a with N0 => 0 | Npos p => pos_popcount p end.
+
+(* ASCII helpers of char / u8 *)
+Definition is_ascii_lowercase (c : N) : bool := (97 <=? c) && (c <=? 122).
+Definition is_ascii_uppercase (c : N) : bool := (65 <=? c) && (c <=? 90).
+Definition is_ascii_alphabetic (c : N) : bool := is_ascii_lowercase c || is_ascii_uppercase c.
+Definition is_ascii_digit (c : N) : bool := (48 <=? c) && (c <=? 57).
+Definition ascii_upper (c : N) : N := if is_ascii_lowercase c then c - 32 else c.
+Definition ascii_lower (c : N) : N := if is_ascii_uppercase c then c + 32 else c.
